@@ -543,7 +543,7 @@ def pp(t, ind=2):
     if k == "ok": return "Ok " + pa(t[1], ind)
     if k == "panic": return "Panic " + t[1]
     if k == "bind":
-        return "let* %s := %s in\n%s%s" % (pat_text(t[1]), pp(t[2], ind + 4), sp, pp(t[3], ind))
+        return "let* %s := %s in\n%s%s" % (pat_text(t[1]).lstrip("'"), pp(t[2], ind + 4), sp, pp(t[3], ind))
     if k == "let":
         return "let %s := %s in\n%s%s" % (pat_text(t[1]), pp(t[2], ind + 4), sp, pp(t[3], ind))
     if k == "if":
@@ -904,17 +904,23 @@ class Translator:
                 v = self.fresh("r"); B.append(("bind", ("v", v), g_raw(t))); return (v, ent["ret"])
             return ("(" + t + ")", ent["ret"])
         # a mutating call: the model function returns the new values of the mutated operands (and the return value)
-        names, retname = [], None
+        names, retname, later = [], None, []
         for o in outs:
-            if o == "recv": v = self.root_var(recv, env)
-            elif o.startswith("arg"): v = self.root_var(args[int(o[3:])], env)
+            if o == "recv": pl = strip(recv)
+            elif o.startswith("arg"): pl = strip(args[int(o[3:])])
             elif o == "ret": retname = self.fresh("r"); names.append(retname); continue
             else: self.bad("call table: unknown output %r" % o)
-            if o == "recv" and strip(recv)[0] != "var":
-                self.bad("mutating method `.%s` on a receiver that is not a plain variable" % name)
-            names.append(v.g); self.ctx.note(v)
+            if pl[0] == "var":
+                v = env.lookup(pl[1])
+                if v is None: self.bad("unknown variable `%s`" % pl[1])
+                names.append(v.g); self.ctx.note(v)
+            elif pl[0] == "field":
+                nv = self.fresh("n"); names.append(nv); later.append((pl, nv, self.place_type(pl, env)))
+            else:
+                self.bad("mutating method `.%s` on an operand that is neither a variable nor a field" % name)
         if ent.get("fallible"): B.append(("bind", names_pat(names), g_raw(t)))
         else: B.append(("let", names_pat(names), g_raw("(" + t + ")")))
+        for pl, nv, pty in later: self.assign_place(pl, nv, pty, env, B)
         if retname: return (retname, ent["ret"])
         return ("tt", "unit")
 
@@ -942,7 +948,11 @@ class Translator:
         a, b = strip(args[0]), strip(args[1])
         # read both, then write both (mem::swap of two disjoint places)
         va, ta = self.ex(a, env, B)
+        if a[0] != "index":                                  # a pure read: freeze the value before anything is rebound
+            n = self.fresh("o"); B.append(("let", ("v", n), g_raw(va))); va = n
         vb, tb_ = self.ex(b, env, B)
+        if b[0] != "index":
+            n = self.fresh("o"); B.append(("let", ("v", n), g_raw(vb))); vb = n
         if ta != tb_: self.bad("mem::swap of places of different types")
         self.assign_place(a, vb, tb_, env, B)
         self.assign_place(b, va, ta, env, B)
